@@ -139,7 +139,12 @@ def gen_case(rng):
     groups = [g for g in groups if g]
     return dict(terms=terms, groups=groups,
                 fast=[rng.random() < 0.3 for _ in groups],
-                span=rng.random() < 0.4)
+                span=rng.random() < 0.4,
+                # where the master's logical address counter stands before
+                # the groups are allocated (the project's own test presets
+                # it to 7)
+                logical_base=rng.choice([0, 0, 0, 7, 0x123, 0x800, 0xffd,
+                                         0x12345]))
 
 
 def build(case, ec):
@@ -170,6 +175,9 @@ def expected_sizes(d, rw):
 
 def check_case(case, res, sess):
     ec = ecat.OfflineFastEtherCat(sess)
+    if case.get("logical_base"):
+        ec.next_logical_addr = case["logical_base"]
+        res.count("masters_with_an_unaligned_logical_base")
     ts = build(case, ec)
     windows = []
     nwith = sum(1 for d in case["terms"] if d["isz"] or d["osz"])
